@@ -7,6 +7,7 @@ import (
 	"image"
 	"image/color"
 	"math"
+	"runtime"
 
 	"github.com/reactivego/ivg"
 	"github.com/reactivego/ivg/decode"
@@ -33,6 +34,7 @@ const (
 	c02Intact         // seeded: files from the Encoder and the foreign writer read without faults
 	c02Short          // exhaustive: a valid header followed by every instruction stream of up to 2 (quick) / 3 (thorough) bytes
 	c02Random         // seeded: a valid or nearly valid header followed by random bytes
+	c02Linear         // long repetitive valid streams at two sizes: allocation volume and delivered activity must grow linearly
 	c02Literal = 255  // the rest of the tape is the stored bytes themselves (replay / shrinking form)
 )
 
@@ -526,6 +528,8 @@ func sweepValue(b byte, j int) byte {
 	}
 }
 
+const c02LinearShapes = 9
+
 func c02Counts(ctx *Ctx) (nTrunc, nSweep, nMulti, nIntact, nShort, nRandom int) {
 	n := len(ctx.Corpus)
 	if ctx.Tier == "thorough" {
@@ -538,7 +542,7 @@ func c02Counts(ctx *Ctx) (nTrunc, nSweep, nMulti, nIntact, nShort, nRandom int) 
 
 func c02Cases(ctx *Ctx) int {
 	a, b, c, d, e, f := c02Counts(ctx)
-	return a + b + c + d + e + f
+	return a + b + c + d + e + f + c02LinearShapes
 }
 
 func c02Prefix(ctx *Ctx, i int) []uint64 {
@@ -556,8 +560,10 @@ func c02Prefix(ctx *Ctx, i int) []uint64 {
 		return []uint64{c02Intact}
 	case i < a+b+c+d+e:
 		return []uint64{c02Short, uint64(i - a - b - c - d)}
-	default:
+	case i < c02Cases(ctx)-c02LinearShapes:
 		return []uint64{c02Random}
+	default:
+		return []uint64{c02Linear, uint64(i - (c02Cases(ctx) - c02LinearShapes))}
 	}
 }
 
@@ -710,6 +716,9 @@ func c02Run(ctx *Ctx, t *tape.Tape) *report.Violation {
 		}
 		return nil
 
+	case c02Linear:
+		return c02LinearCase(ctx, t.Intn(c02LinearShapes))
+
 	case c02Random:
 		hdr := c02Headers[t.Intn(len(c02Headers))]
 		s := append([]byte(nil), hdr...)
@@ -832,6 +841,126 @@ func c02Run(ctx *Ctx, t *tape.Tape) *report.Violation {
 	return nil
 }
 
+// longStream builds a valid, repetitive stream of about n bytes of the given
+// shape: the kinds of input whose cost per byte a reader could get wrong.
+func longStream(shape, n int) []byte {
+	s := []byte{0x89, 'I', 'V', 'G', 0x00}
+	var unit []byte
+	drawing := true
+	switch shape {
+	case 0: // alternating H / V: every op ends the previous run (one flush per op in an Encoder)
+		unit = []byte{0xe6, 0x70, 0xe8, 0x90}
+	case 1: // maximal repeat groups of one verb
+		unit = append([]byte{0x1f}, bytes.Repeat([]byte{0x82, 0x7e}, 32)...)
+	case 2: // selector writes
+		unit, drawing = []byte{0x05, 0x45, 0x3f, 0x7f}, false
+	case 3: // many tiny paths
+		unit, drawing = []byte{0xc0, 0x80, 0x80, 0xe1}, false
+	case 4: // 4-byte colours into registers, incrementing
+		unit, drawing = []byte{0x9f, 0x10, 0x20, 0x30, 0x40}, false
+	case 5: // alternating absolute / relative cubics
+		unit = []byte{0xa0, 0x70, 0x72, 0x74, 0x76, 0x78, 0x7a, 0xb0, 0x82, 0x84, 0x86, 0x7e, 0x7c, 0x7a}
+	case 6: // close-and-move ops
+		unit = []byte{0xe2, 0x70, 0x90, 0xe3, 0x82, 0x7e}
+	case 7: // 4-byte floats into number registers
+		unit, drawing = []byte{0xaf, 0x03, 0x00, 0x80, 0x3f}, false
+	default: // arcs, one per opcode, alternating kinds
+		unit = []byte{0xc0, 0x90, 0x88, 0x1e, 0x06, 0x70, 0x90, 0xd0, 0x88, 0x90, 0x00, 0x02, 0x84, 0x7c}
+	}
+	if drawing {
+		s = append(s, 0xc0, 0x80, 0x80)
+	}
+	for len(s) < n {
+		s = append(s, unit...)
+	}
+	if drawing {
+		s = append(s, 0xe1)
+	}
+	return s
+}
+
+func allocatedBy(f func()) uint64 {
+	var a, b runtime.MemStats
+	runtime.ReadMemStats(&a)
+	f()
+	runtime.ReadMemStats(&b)
+	return b.TotalAlloc - a.TotalAlloc
+}
+
+// c02LinearCase: "work and rasteriser activity are linear in input length".
+// Time is not a deterministic measure; the volume of memory a reader
+// allocates is, and it is where superlinear work shows first (copying of
+// ever longer buffers). Each reader gets the same shape at n and at 4n bytes:
+// an amortised-doubling buffer lies between 2x and 8x, quadratic behaviour
+// gives 16x; the bound is 12x plus a constant. Delivered calls and rasteriser
+// calls are counted too and must not grow faster than the input.
+func c02LinearCase(ctx *Ctx, shape int) *report.Violation {
+	n := 8 << 10
+	if ctx.Tier == "thorough" {
+		n = 24 << 10
+	}
+	small, big := longStream(shape, n), longStream(shape, 4*n)
+	type reader struct {
+		name string
+		run  func(s []byte) (activity int)
+	}
+	readers := []reader{
+		{"Decode into a recorder", func(s []byte) int {
+			rd := &world.RecDest{}
+			_ = decode.Decode(rd, s)
+			return len(rd.Calls)
+		}},
+		{"Decode into a Renderer", func(s []byte) int {
+			rz := &world.RecRaster{NoSnap: true}
+			var rn render.Renderer
+			rn.SetRasterizer(rz, image.Rect(0, 0, 32, 32))
+			_ = decode.Decode(&rn, s)
+			return len(rz.Ops)
+		}},
+		{"Decode into an Encoder", func(s []byte) int {
+			var e encode.Encoder
+			_ = decode.Decode(&e, s)
+			b, _ := e.Bytes()
+			return len(b)
+		}},
+		{"Disassemble", func(s []byte) int {
+			out, _ := decode.Disassemble(s)
+			return len(out)
+		}},
+	}
+	for _, r := range readers {
+		var act1, act4 int
+		ctx.SetLiteral(nil)
+		ctx.Beat()
+		a1 := allocatedBy(func() { act1 = r.run(small) })
+		ctx.Beat()
+		a4 := allocatedBy(func() { act4 = r.run(big) })
+		ctx.Beat()
+		if a4 > 12*a1+(1<<20) {
+			v := viol("C02", "linear-work", "%s: a %d-byte stream makes it allocate %d bytes, the same shape at %d bytes %d bytes (%.1fx for 4x the input; amortised buffers stay below 8x, quadratic work gives 16x)", r.name, len(small), a1, len(big), a4, float64(a4)/float64(a1+1))
+			v.Trace = []string{fmt.Sprintf("shape %d: %s… repeated", shape, hexShort(small[:min(len(small), 40)], 80))}
+			v.Tape = []uint64{c02Linear, uint64(shape)}
+			v.KeepPrefix = 2
+			v.Signature = v.Invariant
+			return v
+		}
+		if act4 > 5*act1+64 {
+			v := viol("C02", "linear-work", "%s: activity (calls / rasteriser calls / output bytes) grows from %d to %d for 4x the input", r.name, act1, act4)
+			v.Tape = []uint64{c02Linear, uint64(shape)}
+			v.KeepPrefix = 2
+			v.Signature = v.Invariant
+			return v
+		}
+		if ctx.Stats != nil {
+			ctx.Stats.Add("evaluations", 1)
+			ctx.Stats.Add("linear_work_measurements", 1)
+			ctx.Stats.Max("max_allocation_growth_x100_for_4x_input", int64(100*float64(a4)/float64(a1+1)))
+			ctx.Stats.Distinct(fnvAdd(uint64(shape)<<8|uint64(len(r.name)), 6))
+		}
+	}
+	return nil
+}
+
 // literalEnd is the number of values on a replay tape; for a generating tape
 // (never the case for literal mode in practice) it stops immediately.
 func literalEnd(t *tape.Tape) int { return t.Len() }
@@ -855,9 +984,11 @@ func init() {
 					"files_read":               s.Counters["files_read"],
 					"exhaustive_short_streams": s.Counters["short_streams"],
 					"random_streams":           s.Counters["random_streams"],
-					"prefix_comparisons":       s.Counters["prefix_checks"],
-					"calls_delivered":          s.Counters["calls_delivered"],
-					"raster_ops_recorded":      s.Counters["raster_ops"],
+					"linear_work_measurements_(9 shapes x 4 readers at n and 4n bytes)": s.Counters["linear_work_measurements"],
+					"largest_allocation_growth_for_4x_the_input":                        fmt.Sprintf("%.2fx", float64(s.Counters["max_allocation_growth_x100_for_4x_input"])/100),
+					"prefix_comparisons":  s.Counters["prefix_checks"],
+					"calls_delivered":     s.Counters["calls_delivered"],
+					"raster_ops_recorded": s.Counters["raster_ops"],
 					"reach_probes": map[string]int64{
 						"decode error after >=1 delivered call beyond Reset": s.Counters["probe_error_after_delivered_call"],
 						"multi-fault input still past the header":            s.Counters["multi_past_header"],
